@@ -9,8 +9,10 @@ import (
 	"hash"
 	"math/big"
 	"os"
+	"reflect"
 	"strings"
 	"sync"
+	"unsafe"
 
 	"golang.org/x/crypto/blake2b"
 )
@@ -118,6 +120,17 @@ var (
 	searchOrd []string
 	searchSet = map[string]uint64{}
 )
+
+// SetField stores val into the (possibly unexported) field of the struct ptr
+// points to. Used to build values of dependency types whose fields cannot be
+// named from the harness package.
+func SetField(ptr any, field string, val any) {
+	f := reflect.ValueOf(ptr).Elem().FieldByName(field)
+	if !f.IsValid() {
+		panic("vapi.SetField: no field " + field)
+	}
+	reflect.NewAt(f.Type(), unsafe.Pointer(f.UnsafeAddr())).Elem().Set(reflect.ValueOf(val))
+}
 
 // UBits returns a value below 2^bits.
 func UBits(name string, bits int) uint64 {
